@@ -371,9 +371,9 @@ func init() {
 		},
 		Spaces: func(tier string) []*core.Space {
 			if tier == "thorough" {
-				return []*core.Space{c08Containers(), c08EnvSpace(), c08Space("settings-a-b-c+group", []string{"a", "b", "c"}, false), c08Space("settings-a-b+group(full)", []string{"a", "b"}, true)}
+				return []*core.Space{c08Containers(), c08ChainsIntoCycles(), c08EnvSpace(), c08Space("settings-a-b-c+group", []string{"a", "b", "c"}, false), c08Space("settings-a-b+group(full)", []string{"a", "b"}, true)}
 			}
-			return []*core.Space{c08Containers(), c08EnvSpace(), c08Space("settings-a-b+group", []string{"a", "b"}, true)}
+			return []*core.Space{c08Containers(), c08ChainsIntoCycles(), c08EnvSpace(), c08Space("settings-a-b+group", []string{"a", "b"}, true)}
 		},
 	})
 }
